@@ -37,7 +37,11 @@ RULE = (
     "per cycle that is none of the callers; producers finish while the gate is closed (logging does not wait for output); "
     "the object returned by stopService completes only after the last offered message was passed on, for every gate "
     "position, and does complete once the gate opens; a masked failure loses only that call; after stop nothing more "
-    "arrives (also not through eliot's own logging) and a later cycle behaves the same. Non-trivial: stop requested while "
+    "arrives (also not through eliot's own logging) and a later cycle behaves the same. Facets interleaved(-enum): "
+    "producers, the writer thread (created through a scheduled stand-in for `threading`, cooperative queue) and the stop "
+    "request run as workers of the line-level scheduler over eliot/logwriter.py under generated plans and every single "
+    "preemption; every message whose offer returned before stopService was called must be written exactly once, "
+    "per-producer order kept, and stopService's result must complete. Non-trivial: stop requested while "
     ">= 1 message is still queued, or a failure followed by further messages, or >= 2 producers. Distinct = canonical JSON."
 )
 ASSUMPTIONS = [
@@ -324,4 +328,138 @@ def strategy():
     )
 
 
-FACETS = [Facet("cycles", strategy, check, classify, quick=300, thorough=8000)]
+# ------------------------------------------------------------ interleavings
+
+
+def check_interleaved(case):
+    """
+    Producers, the writer thread and the stop request as workers of the
+    line-level scheduler (eliot/logwriter.py): the writer thread is created
+    through a scheduled `threading` stand-in and the queue is cooperative.
+    """
+    from .. import sched
+    from eliot import logwriter as lw
+
+    s = sched.Scheduler(("eliot/logwriter.py",), case["plan"], grace=1.0, total_timeout=30.0)
+    saved = (lw.threading, lw.SimpleQueue)
+    lw.threading = sched.scheduled_threading(s)
+    lw.SimpleQueue = sched.CoopQueue
+    sched.CoopQueue._scheduler = s
+    reactor = Reactor()
+    received = []
+    mask = set(case["mask"])
+    calls = [0]
+
+    def dest(msg):
+        k = calls[0]
+        calls[0] += 1
+        received.append((msg, threading.get_ident()))
+        if k in mask:
+            raise DestFault("fails on call %d" % k)
+
+    clock = [0]
+
+    def tick():
+        clock[0] += 1
+        return clock[0]
+
+    offered_done = {}
+    done_flags = []
+    box = {}
+    try:
+        writer = ThreadedWriter(dest, reactor)
+
+        def main():
+            writer.startService()
+            box["started"] = True
+            if case["wait_for_producers"]:
+                s.wait_for(lambda: len(done_flags) == len(case["producers"]), ("wait-producers", 0, "main"))
+            box["stop_tick"] = tick()
+            box["d"] = writer.stopService()
+
+        def producer(pid, count):
+            def run():
+                s.wait_for(lambda: box.get("started"), ("wait-start", 0, "producer"))
+                for i in range(count):
+                    msg = (pid, i)
+                    writer(msg)
+                    offered_done[msg] = tick()
+                done_flags.append(pid)
+
+            return run
+
+        s.run([main] + [producer(p, c) for p, c in enumerate(case["producers"])])
+        for wid, e in s.errors.items():
+            if isinstance(e, HarnessError):
+                raise e
+            raise Violation("thread-raised", "worker %d raised %r" % (wid, e))
+        d = box.get("d")
+        require(d is not None, "harness", "stopService was not reached")
+        fired = d.wait(3.0)
+        got = [m for m, _ in received]
+        must = [m for m, t in offered_done.items() if t < box["stop_tick"]]
+        missing = [m for m in must if m not in got]
+        require(not missing, "lost", lambda: "messages %r were offered before stopService was called but never reached the destination (got %r)" % (missing, got))
+        require(len(set(got)) == len(got), "duplicated", lambda: "destination saw a message twice: %r" % (got,))
+        for pid in range(len(case["producers"])):
+            seq = [i for (p_, i) in got if p_ == pid]
+            require(seq == sorted(seq), "order", lambda: "producer %d's messages arrived as %r" % (pid, seq))
+        require(fired, "stop-never-completed", "stopService's result did not complete")
+        require(d.failure is None, "stop-failed", repr(d.failure))
+        idents = set(i for _, i in received)
+        require(len(idents) <= 1, "several-writer-threads", "written by %d threads" % len(idents))
+    finally:
+        lw.threading, lw.SimpleQueue = saved
+        sched.CoopQueue._scheduler = None
+        reactor.pool.stop()
+        try:
+            Logger._destinations.remove(writer)
+        except Exception:
+            pass
+    inside = s.switched_inside(("__call__", "_reader", "stopService", "startService"))
+    return {"switches": len(s.switches), "switch_inside": len(inside), "offered": len(offered_done), "before_stop": len(must)}
+
+
+def classify_interleaved(case, info):
+    labels = ["producers=%d" % len(case["producers"]), "switches=%d" % min(info["switches"], 8), "stop-waits" if case["wait_for_producers"] else "stop-races-producers"]
+    if info["switch_inside"]:
+        labels.append("preempted-inside-writer-code")
+    return info["switch_inside"] >= 1 and info["offered"] >= 2, labels
+
+
+def interleaved_strategy():
+    from .. import sched
+
+    return st.builds(
+        lambda wait, mask, plan, producers: {"wait_for_producers": wait, "mask": sorted(set(mask)), "plan": plan, "producers": producers},
+        st.booleans(),
+        st.lists(st.integers(0, 6), max_size=2),
+        sched.plans(max_segments=10, max_steps=8, workers=4, min_segments=2),
+        st.lists(st.integers(1, 3), min_size=1, max_size=2),
+    )
+
+
+def interleaved_enum_runner(mod, facet, tier, seed, shard, nshards, stats):
+    from ..core import enumerate_cases
+    from .. import sched
+
+    cases = []
+    # workers: 0 = main (start, stop), 1 = producer, 2 = the writer thread (spawned by startService)
+    for wait in (True, False):
+        for a in range(3):
+            for b in range(3):
+                if a == b:
+                    continue
+                for k in range(0, 26):
+                    cases.append({"wait_for_producers": wait, "mask": [], "plan": [[k, a], [10**6, b]], "producers": [2]})
+                    if k % 2 == 0:
+                        cases.append({"wait_for_producers": wait, "mask": [0], "plan": [[k, a], [4, b], [10**6, 3 - a - b]], "producers": [2]})
+    stats.extra["enumerated_plans"] = len(cases)
+    enumerate_cases(mod, facet, cases, shard, nshards, stats, exhaustive=True)
+
+
+FACETS = [
+    Facet("cycles", strategy, check, classify, quick=300, thorough=8000),
+    Facet("interleaved", interleaved_strategy, check_interleaved, classify_interleaved, quick=300, thorough=10000),
+    Facet("interleaved-enum", None, check_interleaved, classify_interleaved, quick=1, thorough=1, runner=interleaved_enum_runner),
+]
